@@ -398,6 +398,18 @@ def set_variants(paths):
             for e in sends + injs[::-1]:
                 rev += [e, {"e": "drain"}]
             res.append(rev)
+            if len(injs) >= 3:
+                # nothing is drained before everything has been injected, in two more orders: reversed, and "crossed" (successive
+                # receivers get the injected messages in opposite orders: a sender that shows its payloads to two parties in opposite orders)
+                res.append(sends + injs[::-1])
+                by_to = {}
+                for e in injs:
+                    by_to.setdefault(json.dumps(e["m"].get("to"), sort_keys=True), []).append(e)
+                crossed = []
+                for i, k in enumerate(sorted(by_to)):
+                    grp = sorted(by_to[k], key=lambda e: json.dumps(e["m"], sort_keys=True))
+                    crossed += grp if i % 2 == 0 else grp[::-1]
+                res.append(sends + crossed)
     return res
 
 
